@@ -2,6 +2,9 @@ import GBProofs.Props.C12
 import GBProofs.RigidMotion
 import GBProofs.TraceLaws
 import GBProofs.AngMom
+import GBProofs.MomentMotion
+import GBProofs.AngMomMotion
+import GBProofs.SphRotation
 /-!
 # C12 — covariance under every rigid motion (translations, proper and improper rotations)
 
@@ -20,8 +23,19 @@ import GBProofs.AngMom
   which `TranslationLaws.lean` (tables of the one-dimensional recursions) does not cover.
 `TraceLaws.lean` adds the kinetic block: `kineticBlock_moved` (through `T_ab = ½∫∇φ_a·∇φ_b` and the covariance of
 `∇ψ₁·∇ψ₂` under an affine isometry, `covDot_fderiv_moved`).  `AngMom.lean` adds the momentum blocks (`momentumBlock_moved`: vector index rotated by R) and the origin law
-`angmomBlock_translate` (L′ = L + d × p).  Not proved: rotation covariance of the angular-momentum (pseudo-vector) and
-moment (tensor) blocks and spherical shells (`T D T⁺`); both are checked on the implementation.
+`angmomBlock_translate` (L′ = L + d × p).
+
+`MomentMotion.lean`: the multipole-moment blocks are a Cartesian tensor — `momentBlock_moved` (origin moved with the system;
+order index transformed with `monoRep R`, the un-normalised version of `repMat`; `= 1` for order 0, `= R` for the dipole) and
+`momentBlock_moved_translation`.  `AngMomMotion.lean`: the angular-momentum blocks are a pseudo-vector —
+`angmomBlock_moved_linear` / `angmomBlock_moved_pseudovector` (rotation or reflection about the coordinate origin:
+`L′_k = det R · Σ_j R_kj L_j`, with `cof_eq_det_smul`, `detOf_eq_one_or_neg_one`) and the general law `angmomBlock_moved`
+for any affine isometry (`+ g0 × P′`).  `SphRotation/**`: pure shells — the Laplacian commutes with orthogonal substitutions
+(`lapMv_substM`), the harmonic homogeneous polynomials of degree `l` have dimension `≤ 2l+1` (`finrank_Harm_le`, every `l`),
+the model's `2l+1` functions span them (`sphFam_span`, `l ≤ 10`), hence `T·D(R) = W·T` with the explicit orthogonal
+`W = T D S Tᵀ` (`transTab_mul_sphRep`, `sphRepM_orthogonal`) and the functions of a moved spherical shell are `W` applied to the
+original ones, contraction norms included (`sphFnE_moved`); with the lifting theorems this gives the covariance of every
+integral over spherical shells.
 -/
 namespace GB.C12
 alias block_covariant_overlap := overlapBlock_moved
@@ -29,4 +43,9 @@ alias block_covariant_point_charge := pointChargeBlock_moved
 alias block_covariant_eri := eriBlock_moved
 alias block_covariant_kinetic := kineticBlock_moved
 alias cartesian_shell_representation := shellFnE_moved
+alias block_covariant_momentum := momentumBlock_moved
+alias block_covariant_moment := momentBlock_moved
+alias block_covariant_angular_momentum := angmomBlock_moved
+alias spherical_shell_representation := sphFnE_moved
+alias spherical_representation_orthogonal := sphRep_orthogonal
 end GB.C12
